@@ -316,6 +316,11 @@ func (vt *Model) cht(ps int) {
 		vt.cursor.col = ts
 		n += 1
 	}
+	// There are tab stops beyond the screen, and there might be none left:
+	// the last column is where tabulation stops
+	if n < ps || vt.cursor.col > vt.margin.right {
+		vt.cursor.col = vt.margin.right
+	}
 }
 
 // Erase in Display (ED) CSI Ps J
